@@ -52,6 +52,7 @@ def geom(name, tree='T1', nfree=6, window_mid=False, bounds=None, info=None):
         'G32b': dict(fat32=True, clusters=65662, bpc=1, nfats=1, lba=2048, slot=3, ptype=0x0B, reserved=32, root_cluster=5, info_free='unknown'),
         'G32c': dict(fat32=True, clusters=70000, bpc=8, nfats=2, lba=8, slot=0, ptype=0x0C, reserved=32),
         'G32d': dict(fat32=True, clusters=65600, bpc=128, nfats=2, lba=8, slot=0, ptype=0x0C, reserved=34, fsinfo=2),
+        'G32e': dict(fat32=True, clusters=70000, bpc=1, nfats=1, lba=8, slot=0, ptype=0x0C, reserved=32),
     }[name]
     v = dict(P)
     n = v['clusters']
@@ -330,6 +331,66 @@ def scripted():
     ops += [O('iterate', d='d1'), O('lookup_all', d='d1'), O('open_file', d='d1', name='E19.TXT', mode='Truncate', as_='x'), O('write', f='x', n=3), O('close_file', f='x'),
             O('mkdir', d='d1', name='SUBSUB'), O('open_dir', d='d1', name='SUBSUB', as_='d2'), O('iterate', d='d2'), O('close_dir', d='d2'), O('close_dir', d='d1')] + epilogue()
     add('S10-G16c', img, ops, img[1])
+
+    # S11: appending to / extending a file whose length is an exact multiple of the cluster size through a handle whose
+    # cursor is not on the last cluster (fresh append handle; seek back, read, seek to the end, write)
+    for gname in ['G16a', 'G32a', 'G16c', 'G32b']:
+        img = image_of(gname, tree='T0', nfree=10)
+        upc = img[1]
+        ops = prologue() + [O('open_file', d='d0', name='A.BIN', mode='Create', as_='fa'), O('write', f='fa', n=2 * upc), O('close_file', f='fa'),
+                            O('open_file', d='d0', name='A.BIN', mode='Append', as_='fa2'), O('write', f='fa2', n=1), O('seek_start', f='fa2', u=0), O('read', f='fa2', n=3 * upc),
+                            O('close_file', f='fa2'),
+                            O('open_file', d='d0', name='B.BIN', mode='Create', as_='fb'), O('write', f='fb', n=3 * upc), O('seek_start', f='fb', u=0), O('read', f='fb', n=1),
+                            O('seek_end', f='fb', u=0), O('write', f='fb', n=upc), O('seek_start', f='fb', u=upc), O('read', f='fb', n=1), O('seek_end', f='fb', u=0), O('write', f='fb', n=1),
+                            O('seek_start', f='fb', u=0), O('read', f='fb', n=5 * upc), O('close_file', f='fb'),
+                            O('open_file', d='d0', name='B.BIN', mode='ReadOnly', as_='fb2'), O('read', f='fb2', n=5 * upc), O('close_file', f='fb2')] + epilogue()
+        add('S11-' + gname, img, ops, upc)
+
+    # S12: truncate-on-open while lower clusters are free (the old first cluster is not the one allocated next)
+    for gname in ['G16a', 'G32a', 'G32b', 'G16c']:
+        img = image_of(gname, tree='T0', nfree=8)
+        upc = img[1]
+        ops = prologue() + [O('open_file', d='d0', name='A.TXT', mode='Create', as_='fa'), O('write', f='fa', n=1), O('close_file', f='fa'),
+                            O('open_file', d='d0', name='B.TXT', mode='Create', as_='fb'), O('write', f='fb', n=upc + 1), O('close_file', f='fb'),
+                            O('delete', d='d0', name='A.TXT'),
+                            O('open_file', d='d0', name='B.TXT', mode='Truncate', as_='fb2'), O('write', f='fb2', n=2), O('seek_start', f='fb2', u=0), O('read', f='fb2', n=3),
+                            O('close_file', f='fb2'),
+                            O('open_file', d='d0', name='C.TXT', mode='Create', as_='fc'), O('write', f='fc', n=upc), O('close_file', f='fc'),
+                            O('open_file', d='d0', name='B.TXT', mode='CreateOrTruncate', as_='fb3'), O('write', f='fb3', n=2 * upc), O('close_file', f='fb3'),
+                            O('open_file', d='d0', name='B.TXT', mode='ReadOnly', as_='fb4'), O('read', f='fb4', n=2 * upc + 1), O('close_file', f='fb4')] + epilogue()
+        add('S12-' + gname, img, ops, upc)
+
+    # S13: chains that cross a FAT sector boundary (free window in the middle of the FAT: entries 126.. / 254..)
+    for gname in ['G32a', 'G16a', 'G32b']:
+        img = image_of(gname, tree='T0', nfree=7, window_mid=True)
+        upc = img[1]
+        ops = prologue() + [O('open_file', d='d0', name='A.BIN', mode='Create', as_='fa'), O('write', f='fa', n=upc), O('write', f='fa', n=upc), O('write', f='fa', n=upc + 1),
+                            O('close_file', f='fa'),
+                            O('open_file', d='d0', name='B.BIN', mode='Create', as_='fb'), O('write', f='fb', n=1), O('close_file', f='fb'),
+                            O('open_file', d='d0', name='A.BIN', mode='Append', as_='fa2'), O('write', f='fa2', n=upc), O('close_file', f='fa2'),
+                            O('mkdir', d='d0', name='D'), O('delete', d='d0', name='B.BIN'),
+                            O('open_file', d='d0', name='A.BIN', mode='ReadOnly', as_='fa3'), O('read', f='fa3', n=5 * upc), O('close_file', f='fa3')] + epilogue()
+        add('S13-' + gname, img, ops, upc)
+
+    # S14: FAT32 clusters whose number has a zero low half (65536): an existing directory there, and a new one allocated there
+    v, upc, bounds = geom('G32e', tree='T0', nfree=2, bounds=[0, 256])
+    v['root'] = [f('README.TXT', [3], 1), d('BIGD', [65536], [f('IN.DAT', [4], 1), d('SUBD', [6], [f('DEEP.DAT', [7], 1)])]), f('EMPTY.DAT')]
+    v['window'] = sorted(set([2, 3, 4, 6, 7, 65536, 65537, 65538]))
+    ops = prologue() + [O('iterate', d='d0'), O('lookup_all', d='d0'), O('open_dir', d='d0', name='BIGD', as_='d1'), O('iterate', d='d1'), O('lookup_all', d='d1'),
+                        O('open_file', d='d1', name='IN.DAT', mode='ReadOnly', as_='f0'), O('read', f='f0', n=2), O('close_file', f='f0'),
+                        O('open_dir', d='d1', name='SUBD', as_='d2'), O('iterate', d='d2'), O('open_dir', d='d2', name='..', as_='d3'), O('iterate', d='d3'), O('lookup_all', d='d3'),
+                        O('close_dir', d='d3'), O('close_dir', d='d2'),
+                        O('open_file', d='d1', name='NEW.DAT', mode='Create', as_='f1'), O('write', f='f1', n=1), O('close_file', f='f1'), O('iterate', d='d1'),
+                        O('close_dir', d='d1')] + epilogue()
+    add('S14-G32e-existing', (dict(vols=[v]), upc, bounds), ops, upc)
+    v, upc, bounds = geom('G32e', tree='T0', nfree=2, bounds=[0, 256])
+    v['root'] = [f('README.TXT', [3], 1)]
+    v['window'] = sorted(set([2, 3, 65536, 65537, 65538]))
+    v['info_next'] = 'first'
+    ops = prologue() + [O('mkdir', d='d0', name='NEWD'), O('open_dir', d='d0', name='NEWD', as_='d1'), O('iterate', d='d1'),
+                        O('open_file', d='d1', name='X.DAT', mode='Create', as_='f1'), O('write', f='f1', n=2), O('close_file', f='f1'), O('iterate', d='d1'), O('lookup_all', d='d1'),
+                        O('open_dir', d='d1', name='.', as_='d2'), O('iterate', d='d2'), O('close_dir', d='d2'), O('close_dir', d='d1'), O('iterate', d='d0'), O('lookup_all', d='d0')] + epilogue()
+    add('S14-G32e-new', (dict(vols=[v]), upc, bounds), ops, upc)
 
     # S7: several volumes at once
     img = image_multi()
